@@ -2366,3 +2366,75 @@ C19_THEOREMS = ["C19.C19_atomic_on_failure", "C19.C19_success_content", "C19.C19
                 "C19.go_templates_end_with_epilogue"]
 C19_MODULES = ["Yv.Props.C19"]
 C19_LEVEL = "proof"
+
+
+# ------------------------------------------------------------------------------------------- replay
+
+def replay_any(pid, path):
+    """Re-run the concrete case recorded in a replay file against the current tree and say whether
+    the property still fails on it (exit 1) or not (exit 0)."""
+    d = json.load(open(path))
+    ok, msg = prebuild()
+    if not ok:
+        print("REPLAY: cannot build: " + msg[:500])
+        return 2
+    print("REPLAY property=%s file=%s" % (pid, path))
+    if d.get("no_failing_input_found"):
+        print("REPLAY: this report names a broken proof/correspondence, not an input: %s | %s" %
+              (d.get("proof_detail", ""), [t.get("what") for t in d.get("tie_breaks", [])][:3]))
+        print("REPLAY: re-running the quick check")
+        return globals()["check_" + pid]("quick")
+    if "matrix" in d:
+        p = common.sh([common.BIN + "/yharness", "pack"], inp=(json.dumps({"id": "m", "aux": d["matrix"]}) + "\n").encode())
+        b = parse_blocks(p.stdout.decode(), "PCASE", "PEND").get("m", [])
+        unp = [[int(x) for x in l.split()[1:]] for l in b if l.startswith("PUNP")]
+        bad = unp != d["matrix"]
+        print("REPLAY: matrix %s unpacked as %s -> %s" % (d["matrix"], unp, "STILL FAILS" if bad else "ok now"))
+        return 1 if bad else 0
+    if "input_text" in d:
+        work = common.tmpdir("replay")
+        f = os.path.join(work, "in.y")
+        open(f, "w", encoding="utf-8").write(d["input_text"])
+        mode = d.get("command", "go")
+        cmd = [common.BIN + "/yaccgo", "debug", f] if mode == "debug" else [common.BIN + "/yaccgo", "generate", "go" if mode != "ts" else "typescript", f, os.path.join(work, "out")]
+        try:
+            p = subprocess.run(cmd, stdout=subprocess.DEVNULL, stderr=subprocess.DEVNULL, timeout=d.get("deadline_s", 6), cwd=work)
+            print("REPLAY: finished with exit status %d -> ok now" % p.returncode)
+            return 0
+        except subprocess.TimeoutExpired:
+            print("REPLAY: still does not finish within the deadline -> STILL FAILS")
+            return 1
+    if "grammar" in d and "input_symbol_ids" in d:
+        w = d["input_symbol_ids"]
+        rec = common.run_core([{"id": "r", "src": d["grammar"]}], inputs_fn=lambda cid, lines: [w])
+        r = sweep.CaseResult({"id": "r", "src": d["grammar"], "kind": "replay"}, rec["r"])
+        if r.refused is not None:
+            print("REPLAY: grammar is refused now: %s" % r.refused)
+            return 0
+        f = r.runs[0] if r.runs else None
+        print("REPLAY: driver model on the implementation's table: %s" % f)
+        print("REPLAY: Earley says sentence=%s viable_prefix_len=%d ; certificates %s" %
+              (r.g.recognizes(w), r.g.viable_len(w), {k: v[0] for k, v in r.V.items()}))
+        if f and f[2] == "accept":
+            good = r.g.check_rm_derivation([int(x) for x in f[4:]], w)
+            print("REPLAY: accepted, reductions are a rightmost derivation of the input: %s" % good)
+            bad = (not good) or (not r.g.recognizes(w))
+        else:
+            bad = r.g.recognizes(w) and r.V.get("isLALR1", ["?"])[0] == "yes" or (f is not None and f[2] == "crash")
+        print("REPLAY: %s" % ("STILL FAILS" if bad else "ok now"))
+        return 1 if bad else 0
+    if "grammar_file" in d or "grammar" in d:
+        src = d.get("grammar_file") or d.get("grammar")
+        rec = run_front([{"id": "r", "src": src}])
+        dg = digest_front(rec["r"]["impl"])
+        print("REPLAY: front end says refuse=%s syntax_error=%s hang=%s symbols=%d rules=%d" %
+              (dg["refuse"], dg["ast_err"], dg["hang"], len(dg["syms"]), len(dg["rules"])))
+        print("REPLAY: recorded: %s" % {k: v for k, v in d.items() if k not in ("grammar_file", "grammar")})
+        print("REPLAY: re-running the quick check of %s to decide" % pid)
+        return globals()["check_" + pid]("quick")
+    print("REPLAY: %s" % json.dumps(d)[:2000])
+    return globals()["check_" + pid]("quick")
+
+
+for _p in ["C%02d" % i for i in range(1, 20)]:
+    globals()["replay_" + _p] = (lambda path, _p=_p: replay_any(_p, path))
